@@ -39,8 +39,8 @@ impl Accumulator {
 
     /// Accumulate a new value into the aggregate state.
     fn accumulate(&mut self, value: &DataType) -> RuntimeResult<()> {
-        // Skip NULL values for most aggregates except COUNT
-        if matches!(value, DataType::Null) && !matches!(self, Accumulator::Count { .. }) {
+        // Aggregates ignore NULL inputs; COUNT(*) is fed a non-NULL marker per row
+        if matches!(value, DataType::Null) {
             return Ok(());
         }
 
@@ -207,15 +207,17 @@ impl<Child: Executor> HashAggregate<Child> {
         // Accumulate the row
         let evaluator = ExpressionEvaluator::new(&row, &self.input_schema);
         for (i, agg_expr) in self.aggregates.iter().enumerate() {
+            // COUNT(*) counts rows: every row contributes a non-NULL marker
+            let row_marker = DataType::Bool(true.into());
             let value = if agg_expr.arg.is_none() {
-                DataType::Null
+                row_marker
             } else if let Some(ref arg) = agg_expr.arg {
                 match arg {
-                    BoundExpression::Star => DataType::Null,
+                    BoundExpression::Star => row_marker,
                     other => evaluator.evaluate_as_single_value(other)?,
                 }
             } else {
-                DataType::Null
+                row_marker
             };
             bucket.accumulators[i].accumulate(&value)?;
         }
